@@ -6,12 +6,13 @@ unsorted time stamps, mutation of source fields and of fields read back, derived
 a malformed stream) against `PdeVerif.Storage.step` (Lean, exact rationals): after EVERY step
 the error class, the returned observation, `times`, every frame's data, write mode, data shape,
 grid, template, every live field's data and the memory-sharing partition are compared.
-Monitor: `harness/common/c20_spec.py` (specification log under the documented semantics)."""
+Monitor: `harness/common/c20_spec.py` (specification log under the documented semantics; it judges
+itself, from the public state before the operation, whether an operation is valid and must succeed)."""
 import functools
 from fractions import Fraction
 
 from harness.common import c20_world as W
-from harness.common.c20_spec import Monitor
+from harness.common.c20_spec import Monitor, probe
 
 PID = "C20"
 LEVEL = "proof"
@@ -28,6 +29,11 @@ REQUIRED_THEOREMS = [
     "extract_field_world", "apply_world", "getSlice_eq", "gatherInto_spec", "gatherInto_too_long",
     "collInfo_cases", "allwf_step", "applyTo_some_srun", "world_refines_store_all", "world_run_refines_all",
     "world_reads_appended",
+    # review 1: acceptance (valid operations are never refused), full extract_time_range statement, the cast-fail
+    # half of copy/apply, what the reading operations of the world return
+    "extract_time_range_sorted", "copy_apply_castfail", "valid_session_accepted", "valid_sessions_accepted",
+    "valid_history_stored", "runBoth_of_allAccepted", "mapFrames_items", "mapFrames_getSlice", "mapFrames_viewGet",
+    "read_world", "items_world", "slice_world", "view_field_world", "world_read_returns_appended",
 ]
 RULE = ("(1) adaptive random operation sequences of length 5-40 over newField/setField/newStore/setMode/"
         "start_writing/append/end_writing/clear/read/items/slice/extract_time_range/extract_field/view_field/"
@@ -37,14 +43,22 @@ RULE = ("(1) adaptive random operation sequences of length 5-40 over newField/se
         "malformed stream (writes without data shape, readonly writes, wrong grid/shape/dtype, out-of-range reads, bad "
         "field ids); distinct by operation list; non-trivial if >= 2 accepted appends of non-constant data, >= 1 "
         "accepted read or derived view and >= 1 mutation, mode transition, truncation or rejected operation. "
+        "Half of the data values carry 30-37 significant bits (not representable in float32). "
         "(2) ALL sequences over a 13-operation alphabet up to length 2-4 per initial write mode; non-trivial if the "
-        "storage state moves or an operation is rejected at least twice. (3) searchsorted on sorted/unsorted/tied "
-        "lists vs numpy. (4) real solver runs filling one storage through storage.tracker(). (5) get_memory_storage. "
-        "(6) 16 template/appended dtype combinations (monitor only)")
+        "storage state moves or an operation is rejected at least twice. (3) searchsorted vs numpy: a hard tie on "
+        "sorted/tied lists, informative on unsorted lists. (4) real solver runs filling one storage through "
+        "storage.tracker(). (5) get_memory_storage. (6) MONITOR ONLY: all 36 template/appended combinations of "
+        "float64/float32/complex128/complex64/int64/int32 for scalar fields and collections, each followed by a change "
+        "of the source, every read and every derived view, + adaptive sequences of generator (1) with 2-3 mixed dtypes, "
+        "stepped slices and StorageView iteration")
 ASSUMPTIONS = [
     "np.can_cast(field.dtype, storage dtype, 'same_kind') is an abstract flag of the append operation in the model; "
-    "the harness supplies numpy's verdict (int64 sessions exercise the TypeError route; complex/float32 only in the "
-    "monitor-only dtype leg)",
+    "the harness supplies numpy's verdict (int64 sessions exercise the TypeError route); the model's values are exact "
+    "rationals, so complex/float32/int32 data and the dtype pairs numpy casts 'same_kind' but not 'safe' are judged by "
+    "the monitor alone (dtype leg), not by the model",
+    "np.searchsorted on UNSORTED times is a detail of numpy's search loop: the model mirrors the loop of numpy 2.5.3; "
+    "model and numpy are tied on sorted times only, on unsorted times the monitor demands a contiguous run and a "
+    "differing bracket ends the model comparison of that sequence (recorded in the evidence, no alarm)",
     "numpy copy/view semantics (np.array copies, slicing shares) are observed through np.shares_memory / array bases",
     "the info dictionary shared between a storage and the storages derived from it is outside the model "
     "(extract_field on a derived storage without template is not generated)",
@@ -96,6 +110,16 @@ PROFILES = [
 
 
 # ------------------------------------------------------------------------------------------
+def probe_failure(world):
+    """monitor failure `inconsistent-state` if the public state of a storage cannot even be inspected"""
+    try:
+        probe(world)
+    except Exception as e:  # noqa: BLE001
+        return Monitor._fail(f"storage left in an inconsistent state ({type(e).__name__}: {e})",
+                             {"error": f"{type(e).__name__}: {e}"}, {"error": None}, "inconsistent-state")
+    return None
+
+
 def exec_ops(ops, stop_on_failure=True):
     """run `ops` on the real code with the monitor.
     -> dict(steps=[{err, obs, snap, mop}], failures=[{...}], world)"""
@@ -104,6 +128,8 @@ def exec_ops(ops, stop_on_failure=True):
     steps, failures = [], []
     monitoring = True
     for i, op in enumerate(ops):
+        if monitoring:
+            mon.before(op)
         err, obs, mop = world.execute(op)
         if monitoring:
             try:
@@ -119,6 +145,10 @@ def exec_ops(ops, stop_on_failure=True):
                         steps.append({"err": err, "obs": obs, "snap": world.snapshot(), "mop": mop})
                         break
         steps.append({"err": err, "obs": obs, "snap": world.snapshot(), "mop": mop})
+    if not failures:
+        bad = probe_failure(world)
+        if bad is not None:
+            failures.append({**bad, "step": len(steps) - 1})
     return {"steps": steps, "failures": failures, "world": world, "monitor_evals": mon.evals}
 
 
@@ -126,9 +156,12 @@ class Gen:
     """adaptive generator: every operation is executed on the real code as soon as it is drawn,
     so that later operations can refer to the state reached"""
 
-    def __init__(self, rng, hist, length, p_malformed):
+    def __init__(self, rng, hist, length, p_malformed, dtypes=None):
         self.rng, self.hist = rng, hist
         self.length, self.p_mal = length, p_malformed
+        # `dtypes` (monitor-only leg): every new field draws its dtype from this list, the first entry most often
+        self.dtypes = dtypes
+        self.max_frames = 0
         self.world = W.RealWorld()
         self.mon = Monitor(self.world)
         self.ops, self.steps, self.failures = [], [], []
@@ -140,9 +173,18 @@ class Gen:
         self.avoid_s, self.avoid_f = set(), set()   # int64 objects of the dtype-rule stream
 
     # ---- helpers ---------------------------------------------------------------------
-    def vals(self, n):
+    def vals(self, n, integers=False, wide=False):
+        """dyadic rationals (exact in float64 and in the model's `Rat`, also after the `scale`/`addTime`
+        functions: at most 46 significant bits); half of the draws carry 30-37 significant bits, so that
+        a frame that went through float32 (or any other narrowing) cannot equal what was appended"""
         r = self.rng
-        style = r.random()
+        style = 0.5 + r.random() / 2 if wide else r.random()
+        if integers:
+            if style < 0.1:
+                return [0.0] * n
+            if style < 0.5:
+                return [float(r.randint(-9, 9)) for _ in range(n)]
+            return [float(r.randint(-2 ** 40, 2 ** 40)) for _ in range(n)]
         if style < 0.05:
             return [0.0] * n
         if style < 0.1:
@@ -150,9 +192,14 @@ class Gen:
             return [c] * n
         if style < 0.15:
             return [r.choice([2.0 ** 40, 2.0 ** -20, -2.0 ** 30, 1.0, 0.0]) for _ in range(n)]
-        return [r.randint(-16, 16) / 2 ** r.randint(0, 2) for _ in range(n)]
+        if style < 0.5:
+            return [r.randint(-16, 16) / 2 ** r.randint(0, 2) for _ in range(n)]
+        s = r.randint(8, 30)
+        return [(r.randint(2 ** 29, 2 ** 36) * r.choice([-1, 1])) / 2 ** s for _ in range(n)]
 
     def do(self, op):
+        if self.monitoring:
+            self.mon.before(op)
         err, obs, mop = self.world.execute(op)
         self.ops.append(op)
         if self.monitoring:
@@ -168,12 +215,31 @@ class Gen:
         self.steps.append({"err": err, "obs": obs, "snap": self.world.snapshot(), "mop": mop})
         self.hist("op", op["op"])
         self.hist("outcome", err or "ok")
+        self.hist("op-outcome", f"{op['op']}:{err or 'ok'}")
+        for b in self.mon.branches:
+            self.hist("branch", b)
+        self.mon.branches.clear()
+        self.max_frames = max([self.max_frames] + [len(st.times) for st in self.world.stores])
         return err
+
+    def field_vals(self, dtype, n, wide=False):
+        """{"vals": ..., ("ivals": ...)} for a field of `n` values of the given dtype"""
+        import numpy as np
+        kind = np.dtype(dtype).kind
+        out = {"vals": self.vals(n, integers=kind in "iu", wide=wide)}
+        if kind == "c":
+            out["ivals"] = self.vals(n, wide=wide)
+        return out
 
     def new_field(self, recipe=None):
         if recipe is None:
             recipe = self.profile["main"] if self.rng.random() < 0.7 else self.rng.choice(self.profile["alts"])
-        self.do({"op": "newField", "recipe": recipe, "vals": self.vals(W.recipe_size(recipe))})
+        if self.dtypes:
+            dt = self.dtypes[0] if self.rng.random() < 0.5 else self.rng.choice(self.dtypes)
+            recipe = {**recipe, "dtype": dt}
+            self.hist("field-dtype", dt)
+        self.do({"op": "newField", "recipe": recipe,
+                 **self.field_vals(recipe.get("dtype", "float64"), W.recipe_size(recipe))})
 
     def matching_fields(self, st):
         out = []
@@ -257,19 +323,29 @@ class Gen:
                  ("fromFields", 1), ("poke", 2), ("fromCollection", 3)]
         k = r.choices([a for a, _ in kinds], [b for _, b in kinds])[0]
         via = "tracker" if r.random() < 0.25 else "direct"
+        if k in ("extractField", "viewRead", "viewItems") and not hasattr(st._field, "fields") and r.random() < 0.85:
+            # mostly on storages that hold collections (elsewhere these operations can only fail)
+            colls = [i for i, x in enumerate(w.stores) if i not in self.avoid_s and hasattr(x._field, "fields")]
+            if colls:
+                sid = r.choice(colls)
+                st = w.stores[sid]
+            elif r.random() < 0.7:
+                k = "read"
         n = len(st.times)
         if k == "append":
             if st._data_shape is None and r.random() < 0.9:
                 k = "start"
             else:
-                fid = self.pick_field(st)
-                err = self.do({"op": "append", "sid": sid, "fid": fid, "t": self.next_time(st), "via": via})
-                if err is None:
-                    self.n_ok_append += 1
-                    if len(set(W.flat(w.fields[fid].data))) > 1:
-                        self.flags.add("nonconstant-data")
-                else:
-                    self.flags.add("rejected")
+                # now and then a burst, so that storages with many frames occur
+                for _ in range(r.randint(3, 8) if r.random() < 0.12 else 1):
+                    fid = self.pick_field(st)
+                    err = self.do({"op": "append", "sid": sid, "fid": fid, "t": self.next_time(st), "via": via})
+                    if err is None:
+                        self.n_ok_append += 1
+                        if len(set(W.flat(w.fields[fid].data))) > 1:
+                            self.flags.add("nonconstant-data")
+                    else:
+                        self.flags.add("rejected")
                 return None
         if k == "start":
             before = (n, st.write_mode)
@@ -298,8 +374,8 @@ class Gen:
             fid = self.any_field()
             f = w.fields[fid]
             self.flags.add("mutation")
-            return self.do({"op": "setField", "fid": fid, "vals": self.vals(f.data.size),
-                            "how": r.choice(["inplace", "setter", "iadd", "members"])})
+            hows = ["inplace", "setter", "iadd", "members"] if str(f.dtype) == "float64" else ["inplace", "setter", "members"]
+            return self.do({"op": "setField", "fid": fid, **self.field_vals(f.dtype, f.data.size), "how": r.choice(hows)})
         if k == "read":
             i = r.randrange(n) if n else 0
             if n and r.random() < 0.3:
@@ -313,7 +389,10 @@ class Gen:
             return None
         if k == "slice":
             c = [None, 0, 1, 2, -1, -2, n, n + 2, -n - 1, n // 2]
-            if self.do({"op": "slice", "sid": sid, "a": r.choice(c), "b": r.choice(c)}) is None and n:
+            op = {"op": "slice", "sid": sid, "a": r.choice(c), "b": r.choice(c)}
+            if self.dtypes and r.random() < 0.5:
+                op["step"] = r.choice([2, -1, 3, -2, 1])   # stepped slices are outside the model: monitor-only leg
+            if self.do(op) is None and n:
                 self.n_ok_view += 1
             return None
         if k == "extractTimeRange":
@@ -329,8 +408,8 @@ class Gen:
                 a, b = r.choice(pool), r.choice(pool)
                 if r.random() < 0.7 and a > b:
                     a, b = b, a
-                op["a"] = None if (ts and r.random() < 0.15) else a
-                op["b"] = None if (ts and r.random() < 0.15) else b
+                op["a"] = None if (ts and r.random() < 0.25) else a
+                op["b"] = None if (ts and r.random() < 0.25) else b
             if self.do(op) is None and n:
                 self.n_ok_view += 1
             return None
@@ -344,13 +423,18 @@ class Gen:
                 kk = r.randrange(n) if n else 0
                 op = {"op": k, "sid": sid, "field": fidsel, "k": kk - n if (n and r.random() < 0.2) else kk}
             else:
-                op = {"op": k, "sid": sid, "field": fidsel}
+                op = {"op": k, "sid": sid, "field": fidsel, "how": r.choice(["items", "iter"])}
             if self.do(op) is None and n:
                 self.n_ok_view += 1
             return None
         if k == "apply":
             func = r.choice([{"kind": "ident"}, {"kind": "ident"}, {"kind": "scale", "c": r.choice([2.0, -0.5, 0.0, 4.0])},
                              {"kind": "addTime"}, {"kind": "member", "i": r.randint(0, 2)}])
+            if self.dtypes:
+                # in-place arithmetic of the user function: none on integer data, no rounding on float32/complex64
+                kind = "f" if st._field is None else __import__("numpy").dtype(st._field.dtype).kind
+                if func["kind"] == "addTime" or (func["kind"] == "scale" and kind not in "fc"):
+                    func = {"kind": "ident"}
             out = None
             others = [i for i in range(len(w.stores)) if i != sid and i not in self.avoid_s]
             if others and r.random() < 0.4:
@@ -391,7 +475,8 @@ class Gen:
                 return None
             i = r.randrange(n)
             self.flags.add("mutation")
-            return self.do({"op": "poke", "sid": sid, "i": i, "vals": self.vals(st.data[i].size)})
+            kind = st.data[i].dtype.kind
+            return self.do({"op": "poke", "sid": sid, "i": i, "vals": self.vals(st.data[i].size, integers=kind in "iu")})
         return None
 
     def favourite_store(self):
@@ -412,7 +497,7 @@ class Gen:
         c = r.choice(["append-fresh", "readonly-start", "readonly-append", "wrong-field", "read-range",
                       "bad-field-id", "etr-empty", "unknown-mode", "apply-readonly", "from-fields-bad", "wrong-start",
                       "wrong-dtype"])
-        if c == "wrong-dtype" and len(self.ops) + 12 > self.length:
+        if c == "wrong-dtype" and (len(self.ops) + 15 > self.length or self.dtypes):
             c = "append-fresh"
         self.hist("malformed", c)
         self.flags.add("malformed")
@@ -437,8 +522,10 @@ class Gen:
             self.do({"op": "append", "sid": sint, "fid": fflt, "t": 0.0})
             self.do({"op": "append", "sid": sint, "fid": fint, "t": 1.0})
             if r.random() < 0.5:
-                self.do({"op": "clear", "sid": sint, "shape": True})     # forgets the dtype ...
-                self.do({"op": "append", "sid": sint, "fid": fflt, "t": 2.0})  # ... RuntimeError (no shape), not TypeError
+                self.do({"op": "clear", "sid": sint, "shape": True})     # forgets shape and dtype ...
+                self.do({"op": "start", "sid": sint, "fid": fflt})       # ... so a float64 session can follow
+                self.do({"op": "append", "sid": sint, "fid": fflt, "t": 2.0})
+                self.do({"op": "append", "sid": sint, "fid": fint, "t": 3.0})   # int64 -> float64 is a safe cast
             self.do({"op": "items", "sid": sint})
             self.do({"op": "newStore", "mode": "truncate_once"})
             sflt = len(w.stores) - 1
@@ -497,11 +584,13 @@ class Gen:
             try:
                 self.step()
             except Exception as e:  # noqa: BLE001 - the real objects are in a state the generator cannot use
+                bad = probe_failure(self.world)
+                if bad is None:
+                    raise            # not explained by the state of the real objects: a defect of the generator
                 if self.monitoring:
-                    self.failures.append({**Monitor._fail(
-                        f"storage left in an inconsistent state ({type(e).__name__}: {e})", {}, {}, "inconsistent-state"),
-                        "step": len(self.ops) - 1})
+                    self.failures.append({**bad, "step": len(self.ops) - 1})
                     self.monitoring = False
+                break
         return self
 
     def nontrivial(self):
@@ -554,12 +643,34 @@ def norm_obs(o):
     return o
 
 
+def unsorted_etr(steps, i):
+    """is step i an `extract_time_range` on a storage whose times are not sorted?  There
+    `np.searchsorted` returns whatever its internal search loop happens to reach - a detail of the
+    numpy version, not of py-pde; the property (monitor) only demands a contiguous run."""
+    mop = steps[i]["mop"]
+    if mop.get("op") != "extractTimeRange" or i == 0 or steps[i - 1]["snap"] is None:
+        return False
+    prev = steps[i - 1]["snap"]["stores"]
+    if mop["sid"] >= len(prev):
+        return False
+    ts = prev[mop["sid"]]["times"]
+    return any(x > y for x, y in zip(ts, ts[1:]))
+
+
 def compare(steps, model_steps):
-    """first difference between the real trace and the model trace, or None"""
+    """first difference between the real trace and the model trace, or None.
+    {"soft": True, ...}: model and numpy chose different brackets for an `extract_time_range` on
+    UNSORTED times (the model mirrors the search loop of one numpy version); no disagreement, the
+    comparison of this sequence ends there because the derived storages differ from then on."""
     mstores, mfields = [], []
     if len(model_steps) < len(steps):
         return {"step": len(model_steps), "what": "model trace too short"}
     for i, (real, mod) in enumerate(zip(steps, model_steps)):
+        if real["err"] is None and mod["err"] is None and unsorted_etr(steps, i):
+            new = [conv_store(d) for idx, d in mod["stores"] if idx == len(mstores)]
+            rs = real["snap"]["stores"][len(mstores)] if len(real["snap"]["stores"]) > len(mstores) else None
+            if not new or rs is None or new[0]["times"] != rs["times"] or new[0]["frames"] != rs["frames"]:
+                return {"soft": True, "step": i, "what": "bracket of searchsorted on unsorted times"}
         for idx, d in mod["stores"]:
             d = conv_store(d)
             if idx == len(mstores):
@@ -618,6 +729,9 @@ def check_against_model(ctx, list_of_steps):
             d = compare(steps, ans[1])
         except ValueError as e:
             d = {"step": None, "what": str(e)}
+        if d is not None and d.get("soft"):
+            ctx.hist("searchsorted-unsorted", "model bracket differs from numpy: comparison of the sequence ends there")
+            continue
         if d is not None:
             out.append((i, d))
     return out
@@ -697,13 +811,16 @@ def shrink(ctx, ops, still_fails, max_rounds=80):
     return cur
 
 
-def monitor_fails(ops, symptom):
-    r = exec_ops(ops)
-    return any(f["key"]["symptom"] == symptom for f in r["failures"])
+def monitor_fails(ops, symptom, route=None):
+    import warnings
+    with warnings.catch_warnings():
+        warnings.simplefilter("ignore")
+        r = exec_ops(ops)
+    return any(f["key"]["symptom"] == symptom and f["key"].get("route") == route for f in r["failures"])
 
 
-def shrink_monitor_failure(ctx, ops, symptom):
-    return shrink(ctx, ops, lambda cands: [monitor_fails(c, symptom) for c in cands])
+def shrink_monitor_failure(ctx, ops, symptom, route=None):
+    return shrink(ctx, ops, lambda cands: [monitor_fails(c, symptom, route) for c in cands])
 
 
 def shrink_disagreement(ctx, ops, what):
@@ -738,6 +855,8 @@ def run(ctx):
             for fl in g.flags:
                 ctx.hist("feature", fl)
             ctx.hist("storages", len(g.world.stores))
+            ctx.hist("max-frames-in-a-storage", "0" if g.max_frames == 0 else "1-2" if g.max_frames <= 2 else
+                     "3-5" if g.max_frames <= 5 else "6-10" if g.max_frames <= 10 else "11+")
             ctx.monitor_evals += g.mon.evals
             for o in g.world.observations:
                 ctx.hist("observation", "from_collection broadcast storages of different length into a ragged storage")
@@ -792,12 +911,26 @@ def bisect_leg(ctx):
         cases.append((ts, x))
         b.add("c20.bisect", {"times": [q(t) for t in ts], "x": q(x)})
         ctx.hist("bisect", "sorted" if ts == sorted(ts) else "unsorted")
+    n_uns = n_uns_same = 0
     for (ts, x), ans in zip(cases, b.run()):
         real = [int(np.searchsorted(ts, x, side="left")), int(np.searchsorted(ts, x, side="right"))]
         ctx.impl_traces += 1
         ctx.count({"bisect": [ts, x]}, nontrivial=len(ts) > 1, leg="bisect")
-        if ans[0] != "ok" or ans[1] != real:
-            ctx.disagree("bisect", {"times": ts, "x": x}, ans[1], real, "searchsorted")
+        if ans[0] != "ok":
+            ctx.disagree("bisect", {"times": ts, "x": x}, ans[1], real, "searchsorted: model error")
+        elif ts == sorted(ts):
+            # sorted: every correct search returns the partition points (theorems bisectLeft/Right_sorted)
+            if ans[1] != real:
+                ctx.disagree("bisect", {"times": ts, "x": x}, ans[1], real, "searchsorted on sorted times")
+        else:
+            # unsorted: the result is a detail of numpy's search loop (the model mirrors the one of numpy 2.5.3);
+            # recorded, not a tie - but both must stay inside the list
+            n_uns += 1
+            n_uns_same += ans[1] == real
+            if not all(0 <= v <= len(ts) for v in real + list(ans[1])):
+                ctx.disagree("bisect", {"times": ts, "x": x}, ans[1], real, "searchsorted index outside [0, n]")
+    ctx.note(f"searchsorted on unsorted lists: the model equals numpy {np.__version__} on {n_uns_same}/{n_uns} "
+             "(informative, not a tie; sorted lists are a hard tie)")
 
 
 def solver_case(cfg):
@@ -824,8 +957,14 @@ def solver_case(cfg):
         state = ScalarField(grid, list(run["init"]))
         seen = []
         cb = CallbackTracker(lambda s_, t: seen.append((t, W.flat(s_.data))), interrupts=0.5)
-        DiffusionPDE(diffusivity=0.25).solve(state, t_range=run["t_range"], dt=0.25, backend="numpy",
-                                             tracker=[st.tracker(0.5), cb])
+        try:
+            DiffusionPDE(diffusivity=0.25).solve(state, t_range=run["t_range"], dt=0.25, backend="numpy",
+                                                 tracker=[st.tracker(0.5), cb])
+        except Exception as e:  # noqa: BLE001 - a writable storage refused a session of the solver
+            bad = Monitor._fail(f"a solver run writing through storage.tracker() into a storage in mode '{cfg['mode']}' "
+                                "raised", {"error": f"{type(e).__name__}: {e}", "times": [float(t) for t in st.times]},
+                                {"error": None}, "solver-run-raised", "StorageTracker")
+            return bad, steps
         fid0 = len(world.fields)
         for vals in [seen[0][1]] + [v for _t, v in seen]:
             f = W.build_field(recipe, list(vals))
@@ -927,7 +1066,7 @@ def exhaustive_leg(ctx):
     ]
     bounds = {"truncate_once": ctx.budget(3, 4), "truncate": ctx.budget(2, 4), "append": ctx.budget(2, 3),
               "readonly": ctx.budget(2, 3), "other": ctx.budget(2, 3)}
-    batch, reported = [], set()
+    batch = []
 
     def flush():
         for i, d in check_against_model(ctx, [st for _ops, st in batch]):
@@ -948,11 +1087,6 @@ def exhaustive_leg(ctx):
                 ctx.hist("exhaustive", f"{mode}/len{n}")
                 for f in r["failures"]:
                     sym = f["key"]["symptom"]
-                    if sym in reported and sym in KNOWN_NONTERMINAL:
-                        ctx.monitor_fail("exhaustive", {"ops": ops[: f["step"] + 1], "symptom": sym}, f["observed"],
-                                         f["expected"], f["what"], key=f["key"])
-                        continue
-                    reported.add(sym)
                     ctx.monitor_fail("exhaustive", {"ops": ops[: f["step"] + 1], "symptom": sym}, f["observed"],
                                      f["expected"], f["what"], key=f["key"])
                 batch.append((ops, r["steps"]))
@@ -963,116 +1097,173 @@ def exhaustive_leg(ctx):
              + ", ".join(f"{m}:{b}" for m, b in bounds.items()))
 
 
+def ctxmgr_case(cm):
+    """`with get_memory_storage(field) as st: st.append(...)` for cm = {"recipe": ..., "vals": [[...], ...]}
+    against the same history performed with explicit calls.
+    -> (failures, explicit ops, steps of the explicit run)"""
+    import numpy as np
+    from pde.storage.memory import get_memory_storage
+    recipe, vals = cm["recipe"], cm["vals"]
+    f = W.build_field(recipe, vals[0])
+    ops = [{"op": "newField", "recipe": recipe, "vals": vals[0]}]
+    crash = None
+    try:
+        with get_memory_storage(f) as st:
+            t = 0.0
+            for v in vals:
+                f.data[...] = np.array(v).reshape(f.data.shape)
+                st.append(f, t)
+                t += 0.5
+    except Exception as e:  # noqa: BLE001
+        crash = f"{type(e).__name__}: {e}"
+    t = 0.0
+    for v in vals:
+        ops += [{"op": "setField", "fid": 0, "vals": v}, {"op": "append", "sid": 0, "fid": 0, "t": t}]
+        t += 0.5
+    f.data[...] = 0      # a later change of the source
+    full = [ops[0], {"op": "newStore", "mode": "truncate_once"}, {"op": "start", "sid": 0, "fid": 0}] + ops[1:] + \
+           [{"op": "end", "sid": 0}, {"op": "setField", "fid": 0, "vals": [0.0] * len(vals[0])}]
+    r = exec_ops(full)
+    failures = list(r["failures"])
+    if crash is not None:
+        failures.append({**Monitor._fail("`with get_memory_storage(field) as st: st.append(...)` raised", {"error": crash},
+                                         {"error": None}, "context-manager-raised", "get_memory_storage"),
+                         "step": len(full) - 1})
+        return failures, full, r
+    ref = r["world"].stores[0]
+    got = {"times": [float(x) for x in st.times], "data": [W.flat(d) for d in st.data], "mode": st.write_mode}
+    exp = {"times": [float(x) for x in ref.times], "data": [W.flat(d) for d in ref.data], "mode": ref.write_mode}
+    want = {"times": [0.5 * i for i in range(len(vals))], "data": [tuple(float(x) for x in v) for v in vals]}
+    if not failures and not (W.same_vals(got["times"], exp["times"]) and len(got["data"]) == len(exp["data"]) and
+                             all(W.same_vals(a, b) for a, b in zip(got["data"], exp["data"])) and
+                             got["mode"] == exp["mode"] and W.same_vals(got["times"], want["times"]) and
+                             all(W.same_vals(a, b) for a, b in zip(got["data"], want["data"]))):
+        failures.append({**Monitor._fail(
+            "get_memory_storage differs from MemoryStorage()+start_writing+append+end_writing (or from what was appended)",
+            got, exp, "context-manager", "get_memory_storage"), "step": len(full) - 1})
+    return failures, full, r
+
+
 def context_manager_leg(ctx):
     """`get_memory_storage` = MemoryStorage() + start_writing ... end_writing"""
-    from pde.storage.memory import get_memory_storage
     rng = ctx.sub_rng("ctxmgr")
     traces = []
     for _ in range(ctx.budget(5, 40)):
         prof = rng.choice(PROFILES)
         recipe = prof["main"]
         n = W.recipe_size(recipe)
-        vals = [[rng.randint(-8, 8) / 2 for _ in range(n)] for _ in range(rng.randint(1, 4))]
-        world = W.RealWorld()
-        mon = Monitor(world)
-        f = W.build_field(recipe, vals[0])
-        world.fields.append(f)
-        ops = [{"op": "newField", "recipe": recipe, "vals": vals[0]}]
-        mops = [{"op": "newField", "info": W.info_of(f), "vals": [W.q(v) for v in vals[0]]}]
-        with get_memory_storage(f) as st:
-            world.stores.append(st)
-            t = 0.0
-            for v in vals:
-                f.data[...] = __import__("numpy").array(v).reshape(f.data.shape)
-                st.append(f, t)
-                ops += [{"op": "setField", "fid": 0, "vals": v}, {"op": "append", "sid": 0, "fid": 0, "t": t}]
-                t += 0.5
-        full = [ops[0], {"op": "newStore", "mode": "truncate_once"}, {"op": "start", "sid": 0, "fid": 0}] + ops[1:] + \
-               [{"op": "end", "sid": 0}]
-        # the same history performed with explicit calls must leave the same storage
-        r = exec_ops(full)
-        ctx.monitor_evals += r["monitor_evals"]
-        same = (list(st.times) == list(r["world"].stores[0].times) and
-                [W.flat(d) for d in st.data] == [W.flat(d) for d in r["world"].stores[0].data] and
-                st.write_mode == r["world"].stores[0].write_mode)
-        case = {"ops": full, "context_manager": True}
-        ctx.count(case, nontrivial=len(vals) > 1, leg="context-manager")
-        for fl in r["failures"]:
-            ctx.monitor_fail("context-manager", case, fl["observed"], fl["expected"], fl["what"], key=fl["key"])
-        if not same:
-            ctx.monitor_fail("context-manager", case, {"times": list(st.times)}, {"times": list(r["world"].stores[0].times)},
-                             "get_memory_storage differs from MemoryStorage()+start_writing+append+end_writing",
-                             key={"call_site": "get_memory_storage", "symptom": "context-manager"})
-        traces.append((case, r["steps"]))
+        cm = {"recipe": recipe, "vals": [[rng.randint(-8, 8) / 2 for _ in range(n)] for _ in range(rng.randint(1, 4))]}
+        failures, full, r = ctxmgr_case(cm)
+        ctx.monitor_evals += r["monitor_evals"] + 1
+        case = {"context_manager": cm}
+        ctx.count(case, nontrivial=len(cm["vals"]) > 1, leg="context-manager")
+        for fl in failures:
+            ctx.monitor_fail("context-manager", {**case, "symptom": fl["key"]["symptom"]}, fl["observed"], fl["expected"],
+                             fl["what"], key=fl["key"])
+        traces.append(({**case, "ops": full}, r["steps"]))
     for i, d in check_against_model(ctx, [s for _c, s in traces]):
         ctx.disagree("context-manager", traces[i][0], d.get("model"), d.get("impl"), d["what"])
     ctx.impl_traces += len(traces)
 
 
+DTYPES = ["float64", "float32", "complex128", "complex64", "int64", "int32"]
+
+
+def dtype_matrix_ops(a, b, coll, gen):
+    """one session whose template has dtype `a` and that is offered data of dtype `b`, followed by a later
+    change of the source and all reads / derived views"""
+    if coll:
+        recipe = {"grid": "u3", "kind": "coll", "label": "c", "members": [M("scalar", "s"), M("vector", "v")]}
+    else:
+        recipe = {"grid": "u3", "kind": "scalar", "label": "d"}
+    n = W.recipe_size(recipe)
+    ops = [{"op": "newField", "recipe": {**recipe, "dtype": a}, **gen.field_vals(a, n, wide=True)},
+           {"op": "newField", "recipe": {**recipe, "dtype": b}, **gen.field_vals(b, n, wide=True)},
+           {"op": "newStore", "mode": "truncate_once"},
+           {"op": "start", "sid": 0, "fid": 0},
+           {"op": "append", "sid": 0, "fid": 1, "t": 0.0},
+           {"op": "append", "sid": 0, "fid": 0, "t": 1.0},
+           {"op": "fromFields", "times": [0.0], "fids": [0], "mode": "append"},
+           {"op": "append", "sid": 1, "fid": 1, "t": 1.0},       # a storage without `_dtype` (template only)
+           {"op": "setField", "fid": 1, "vals": [0.0] * n, "how": "inplace"},
+           {"op": "read", "sid": 0, "i": 0}, {"op": "items", "sid": 0, "how": "items"},
+           {"op": "slice", "sid": 0, "a": None, "b": None, "step": -1},
+           {"op": "apply", "sid": 0, "func": {"kind": "ident"}, "out": None, "how": "copy"},
+           {"op": "extractTimeRange", "sid": 0, "kind": "all", "how": "noarg"},
+           {"op": "read", "sid": 1, "i": -1}]
+    if coll:
+        ops += [{"op": "extractField", "sid": 0, "field": "v", "label": None},
+                {"op": "viewRead", "sid": 0, "field": 1, "k": 0},
+                {"op": "viewItems", "sid": 0, "field": "s", "how": "iter"},
+                {"op": "apply", "sid": 0, "func": {"kind": "member", "i": 1}, "out": None, "how": "apply"}]
+    return ops
+
+
 def dtype_leg(ctx):
-    """monitor only (the Lean model treats numpy's cast verdict as an abstract flag): sessions whose
-    template dtype and appended dtype are drawn from float64/complex128/float32/int64.  Since fd5b417
-    an append numpy cannot cast (same_kind) to the dtype of the storage must raise TypeError; an accepted
-    append must read back as the appended data at the precision of the storage (the documented
-    precision: float64 data in a float32 session is compared as float32).  Regression leg for the
-    repaired finding `read-casts-to-template-dtype`."""
+    """MONITOR ONLY (the Lean model treats numpy's cast verdict as an abstract flag and its values are
+    rationals): float64/float32/complex128/complex64/int64/int32 fields in (1) every template/appended dtype
+    combination, scalar fields and collections, followed by a change of the source and every read and derived
+    view, (2) adaptive random sequences of the generator of leg (1) of `run` with mixed dtypes (also stepped
+    slices).  The monitor judges the literal clause: whatever was accepted reads back EQUAL to the data that was
+    appended (complex parts, all bits of float64, large integers), a safely castable append must be accepted,
+    one numpy cannot cast (same_kind) to the dtype of the storage must raise TypeError."""
     import warnings
     import numpy as np
-    from pde import MemoryStorage, ScalarField, UnitGrid
     rng = ctx.sub_rng("dtype")
-    dts = {"float64": np.float64, "complex128": np.complex128, "float32": np.float32, "int64": np.int64}
-    g = UnitGrid([3])
-    for a in dts:
-        for b in dts:
-            for rep in range(ctx.budget(1, 5)):
-                if b == "complex128":
-                    vals = [complex(rng.randint(-4, 4) / 2, rng.randint(1, 4) / 2) for _ in range(3)]
-                elif b == "int64":
-                    vals = [rng.randint(-5, 5) for _ in range(3)]
-                elif b == "float32":
-                    vals = [rng.randint(-9, 9) / 4 for _ in range(3)]
-                else:
-                    vals = [rng.randint(-9, 9) / 4 + 0.1 for _ in range(3)]
-                castable = bool(np.can_cast(dts[b], dts[a], casting="same_kind"))
-                st = MemoryStorage()
-                st.start_writing(ScalarField(g, np.zeros(3, dtype=dts[a]), dtype=dts[a]))
-                f = ScalarField(g, np.array(vals, dtype=dts[b]), dtype=dts[b])
-                case = {"dtype": {"template": a, "appended": b, "vals": [str(v) for v in vals]}}
-                ctx.monitor_evals += 1
-                ctx.count(case, nontrivial=True, leg="dtype")
-                ctx.hist("dtype", f"{a}<-{b}:{'castable' if castable else 'not-castable'}")
-                key = {"call_site": "StorageBase._get_field", "symptom": "read-casts-to-template-dtype",
-                       "lossless": bool(np.can_cast(dts[b], dts[a], casting="safe"))}
-                with warnings.catch_warnings():
-                    warnings.simplefilter("ignore")
-                    try:
-                        st.append(f, 0.0)
-                        err = None
-                    except Exception as e:  # noqa: BLE001
-                        err = type(e).__name__
-                    if err is not None:
-                        if castable or err != "TypeError" or len(st.times) != 0:
-                            ctx.monitor_fail("dtype", case, {"error": err, "times": list(st.times)},
-                                             {"error": None if castable else "TypeError"},
-                                             "append of castable data was rejected, or with another error class",
-                                             key={"call_site": "StorageBase.append", "symptom": "dtype-rule"})
-                        continue
-                    # accepted: exact data in storage.data, reads at the precision of the storage
-                    exact = [complex(x) for x in f.data.tolist()]
-                    exp = [complex(x) for x in f.data.astype(dts[a]).tolist()] if castable else exact
-                    f.data[...] = 0
-                    got = {"storage[0]": [complex(x) for x in st[0].data.tolist()],
-                           "items()": [complex(x) for x in list(st.items())[0][1].data.tolist()],
-                           "copy()[0]": [complex(x) for x in st.copy()[0].data.tolist()]}
-                    raw = [complex(x) for x in st.data[0].tolist()]
-                wrong = [k for k, v in got.items() if v != exp]
-                if raw != exact:
-                    wrong.append("storage.data[0]")
-                if wrong:
-                    ctx.monitor_fail("dtype", case, {k: [str(x) for x in got.get(k, raw)] for k in wrong},
-                                     {"data": [str(x) for x in exp]},
-                                     "reading returns something else than the appended data at the precision of the "
-                                     f"storage ({', '.join(wrong)})", key=key)
+    nohist = lambda *a, **k: None
+    reported = set()
+
+    def report(ops, failures, leg_case):
+        for f in failures:
+            sym = f["key"]["symptom"]
+            o = ops[: f["step"] + 1]
+            tag = (sym, f["key"].get("route"))
+            if tag not in reported:
+                reported.add(tag)
+                o = shrink_monitor_failure(ctx, o, sym, f["key"].get("route"))
+                again = [x for x in exec_ops(o)["failures"] if x["key"]["symptom"] == sym]
+                f = again[0] if again else f
+            ctx.monitor_fail("dtype", {**leg_case, "ops": o, "symptom": sym}, f["observed"], f["expected"], f["what"],
+                             key=f["key"])
+
+    with warnings.catch_warnings():
+        warnings.simplefilter("ignore")       # ComplexWarning of numpy when a read drops the imaginary part
+        gen = Gen(rng, nohist, 0, 0.0)
+        for a in DTYPES:
+            for b in DTYPES:
+                for coll in (False, True):
+                    for _rep in range(ctx.budget(1, 3)):
+                        ops = dtype_matrix_ops(a, b, coll, gen)
+                        r = exec_ops(ops)
+                        ctx.monitor_evals += r["monitor_evals"]
+                        acc = len(r["steps"]) > 4 and r["steps"][4]["err"] is None
+                        ctx.count({"dtype": [a, b, coll], "ops": ops}, nontrivial=True, leg="dtype")
+                        same_kind = bool(np.can_cast(b, a, casting="same_kind"))
+                        safe = bool(np.can_cast(b, a, casting="safe"))
+                        ctx.hist("dtype", f"{a}<-{b}:{'safe' if safe else 'same_kind' if same_kind else 'not-castable'}:"
+                                          f"{'accepted' if acc else 'refused'}")
+                        report(ops, r["failures"], {"dtype": {"template": a, "appended": b, "collection": coll}})
+        # a later session replaces the template by one of a narrower dtype while the old frames are kept
+        for a, b in [("complex128", "float64"), ("float64", "float32"), ("int64", "int32"), ("complex64", "float32")]:
+            recipe = {"grid": "u3", "kind": "scalar", "label": "d"}
+            ops = [{"op": "newField", "recipe": {**recipe, "dtype": a}, **gen.field_vals(a, 3, wide=True)},
+                   {"op": "newField", "recipe": {**recipe, "dtype": b}, **gen.field_vals(b, 3, wide=True)},
+                   {"op": "newStore", "mode": "append"}, {"op": "start", "sid": 0, "fid": 0},
+                   {"op": "append", "sid": 0, "fid": 0, "t": 0.0}, {"op": "end", "sid": 0},
+                   {"op": "start", "sid": 0, "fid": 1}, {"op": "append", "sid": 0, "fid": 1, "t": 1.0},
+                   {"op": "read", "sid": 0, "i": 0}, {"op": "items", "sid": 0, "how": "iter"}]
+            r = exec_ops(ops)
+            ctx.monitor_evals += r["monitor_evals"]
+            ctx.count({"dtype-template-change": [a, b], "ops": ops}, nontrivial=True, leg="dtype")
+            report(ops, r["failures"], {"dtype_template_change": [a, b]})
+        for _ in range(ctx.budget(150, 1500)):
+            k = rng.randint(2, 3)
+            g = Gen(rng, ctx.hist, rng.randint(8, 40), rng.choice([0.0, 0.1]), dtypes=rng.sample(DTYPES, k)).generate()
+            ctx.monitor_evals += g.mon.evals
+            ctx.count({"dtype-sequence": g.dtypes, "profile": g.profile["name"], "ops": g.ops},
+                      nontrivial=g.nontrivial(), leg="dtype-sequence")
+            ctx.hist("dtype-sequence", "+".join(sorted(g.dtypes)))
+            report(g.ops, g.failures, {"dtype_sequence": g.dtypes})
 
 
 def search(ctx, broken):
@@ -1106,40 +1297,38 @@ def search(ctx, broken):
 
 
 def replay(ctx, rep):
-    c = rep["case"]
-    if "dtype" in c:
-        import warnings
-        import numpy as np
-        from pde import MemoryStorage, ScalarField, UnitGrid
-        d = c["dtype"]
-        g = UnitGrid([3])
-        st = MemoryStorage()
-        st.start_writing(ScalarField(g, np.zeros(3, dtype=d["template"]), dtype=d["template"]))
-        f = ScalarField(g, np.array([complex(v) for v in d["vals"]]).astype(d["appended"]), dtype=d["appended"])
-        castable = bool(np.can_cast(np.dtype(d["appended"]), np.dtype(d["template"]), casting="same_kind"))
-        with warnings.catch_warnings():
-            warnings.simplefilter("ignore")
-            try:
-                st.append(f, 0.0)
-            except Exception as e:  # noqa: BLE001
-                print("append ->", type(e).__name__, e)
-                return (not castable) and type(e).__name__ == "TypeError"
-            back = st[0].data
-        exp = f.data.astype(d["template"]) if castable else f.data
-        print("appended:", f.data.tolist(), f.data.dtype, "| stored:", st.data[0].tolist(), "| storage[0]:", back.tolist(), back.dtype)
-        return [complex(x) for x in back.tolist()] == [complex(x) for x in exp.tolist()]
+    """re-run the recorded case (same leg, same inputs) on the real code under the monitor; True iff
+    the monitor reports nothing any more"""
+    import warnings
+    c = rep.get("case")
+    if not isinstance(c, dict):
+        print("this replay file records no monitor case (a broken tie is replayed by harness/run.py)")
+        return False
+    sym = c.get("symptom")
     if "solver" in c:
         bad, _steps = solver_case(c["solver"])
         print("solver case:", c["solver"])
         print("monitor:", (bad["what"], bad["observed"], bad["expected"]) if bad else "holds")
         return bad is None
-    r = exec_ops(c["ops"])
-    for i, (op, s) in enumerate(zip(c["ops"], r["steps"])):
-        print(f"{i:3d} {op}  ->  {s['err'] or 'ok'}")
+    if "context_manager" in c:
+        failures, full, r = ctxmgr_case(c["context_manager"])
+        ops = full
+    elif "ops" in c:
+        with warnings.catch_warnings():
+            warnings.simplefilter("ignore")
+            r = exec_ops(c["ops"])
+        failures, ops = r["failures"], c["ops"]
+    else:
+        print("this case cannot be replayed (no operation list, solver or context-manager record):", sorted(c))
+        return False
+    for i, (op, s_) in enumerate(zip(ops, r["steps"])):
+        print(f"{i:3d} {op}  ->  {s_['err'] or 'ok'}")
     for sid, st in enumerate(r["world"].stores):
         print(f"storage {sid}: mode={st.write_mode} times={list(st.times)} data={[W.flat(d) for d in st.data]}")
-    for f in r["failures"]:
-        print("monitor:", f["what"], "| observed", f["observed"], "| expected", f["expected"])
-    if not r["failures"]:
+    for f in failures:
+        print("monitor:", f["what"], "| observed", f["observed"], "| expected", f["expected"], "| key", f["key"])
+    if not failures:
         print("monitor: holds")
-    return not r["failures"]
+    elif sym and not any(f["key"]["symptom"] == sym for f in failures):
+        print(f"(the recorded symptom `{sym}` is gone, but the case still fails with another one)")
+    return not failures
